@@ -19,7 +19,7 @@ import itertools
 
 import re
 
-from .. import common, drive, gen, refmodel, xf
+from .. import render, common, drive, gen, refmodel, xf
 from ..model import Row
 from ..refmodel import MEDIA, base_type, default_language, split_header, texts
 
@@ -562,6 +562,24 @@ def run_shard(ctx):
             if fmt == "csv" and not all(isinstance(c, str) and "\n" not in c or c is None for _, (h, rows) in form.to_sheets().items() for r in rows for c in r):
                 fmt = "xlsx"
             ctx.ctr("spacer_column_cases")
+        if i % 6 == 1:
+            # text containers: pipes inside markdown cells (written escaped, as markdown tables require), line breaks and Unicode line separators inside
+            # quoted CSV cells - the text of a cell stays in its cell, its column and its language
+            fmt = rng.choice(["md", "csv"])
+            extra_ = {"md": [" | years", " a|b|c", "| lead", " \\ back"], "csv": ["\nsecond line", " \u2028 sep", " \u0085 nel", ", comma \"quoted\""]}[fmt]  # (CRLF inside a cell is read back as LF by every XML parser: not used)
+            cellsets = [r_.cells for r_, _ in form.walk()] + [c_ for l_ in form.choices.values() for c_ in l_]
+            touched = 0
+            for cs_ in rng.sample(cellsets, min(len(cellsets), 6)):
+                for h_ in [h_ for h_ in cs_ if split_header(h_)[0] in ("label", "hint", "constraint_message", "guidance_hint") and isinstance(cs_[h_], str) and "${" not in cs_[h_]][:2]:
+                    add_ = rng.choice(extra_)
+                    if "\n" in add_ and split_header(h_)[0] == "constraint_message":
+                        add_ = " \u2028 sep"  # an untranslated message is an attribute value: a line break there is read back as a blank
+                    cs_[h_] = cs_[h_] + add_
+                    touched += 1
+            sheets_now = form.to_sheets()
+            if fmt == "md" and not all(render.md_ok_cell(c) for _, (h, rows) in sheets_now.items() for r in rows for c in r if isinstance(c, str)):
+                fmt = "csv"
+            ctx.ctr(f"text_container_cases:{fmt}")
         check(ctx, form, common.feature_sig(form, extra=(form.meta.get("dl_mode"), fmt, bool(spacers))), sample=(i < 2), fmt=fmt, spacers=spacers)
 
 
